@@ -311,6 +311,10 @@ def run(ctx):
                           "error's value is reported" % attr, node=ep.node)
     # code group covers the RFC code syntax, text group the quoted / literal forms: the error parser's first group must contain
     # the resp-code and nothing else for well-formed tails  (checked as: pattern group 1, when present, is '(' ... ')')
+    # ---- multi-step operation: the emulated rename reports success iff every step was answered OK (rules R1, R5, R6 of C14)
+    from .c14 import rename_rules
+    rename_rules(ctx, R)
+
     # ---- Q5 ----------------------------------------------------------------------
     ctx.rule("Q5", "errcode/errmsg are written from server data only by the error parser (elsewhere: constants)")
     nw = 0
